@@ -83,6 +83,11 @@ def generate(seed, tier, k):
         ax = r.randrange(dim)
         vals = gen.ramp_values(r, n, round(e1 * mesh["b"][ax], 6), shape)
         doc["bc"] = {"case": "uniaxial", "clamped": False, "sym": True, "axis": ax}
+        if seed % 3 == 0:
+            # no symmetry plane normal to the loading axis: the left end face is held instead;
+            # the flags given per axis, typed as bools, ints or an array
+            doc["bc"]["sym"] = [a_ != ax for a_ in range(3)]
+            doc["bc"]["sym_type"] = ("bool", "int", "ndarray-bool", "ndarray-int")[(seed // 3) % 4]
         doc["steps"] = [{"ramp": [{"target": "bc:move", "values": vals}]}]
     else:
         e1 = r.choice([-0.15, 0.1, 0.2, 0.3])
@@ -233,6 +238,7 @@ def simulate_release(doc, log):
     if "right" not in step.boundaries:
         raise Discard("no-clamp-boundary")
     del step.boundaries["right"]
+    step.boundaries.pop("left-yz", None)  # the clamp of the held end face (no symmetry plane there)
     vals = dd["steps"][0]["ramp"][0]["values"]
     last = vals[-1]
     new_vals = [round(0.6 * last, 6), round(1.1 * last, 6), round(last, 6)]
